@@ -1,10 +1,15 @@
 import LitexModel.Cdc.Num
-open Litex Litex.Driver Litex.Cdc
+import LitexModel.Stream.Basic
+import LitexModel.Stream.Num
+open Litex Litex.Driver Litex.Cdc Litex.Stream
 
 def openMachine (args : List String) (hin hout : IO.FS.Stream) : Option (IO Bool) :=
   match args with
   | ["afifo", k] => k.toNat?.map fun k => serve (numAFifo k false) hin hout
   | ["afifo_buffered", k] => k.toNat?.map fun k => serve (numAFifo k true) hin hout
+  -- same-domain ClockDomainCrossing: a wire, or `Buffer(layout)` = PipeValid when buffered (models of C03)
+  | ["wire"] => some (serve (numElem (wire (α := Nat))) hin hout)
+  | ["pipevalid"] => some (serve (numElem (pipeValid zTok)) hin hout)
   | ["afifo_rst", k] => k.toNat?.map fun k => serve (numAFifoR k false) hin hout
   | ["afifo_rst_buffered", k] => k.toNat?.map fun k => serve (numAFifoR k true) hin hout
   | ["bussync", w, t] => match w.toNat?, t.toNat? with
